@@ -52,6 +52,10 @@ def replay(ctx, rp):
     if not c:
         return {"fails": False, "note": "replay file carries no concrete input", "payload": rp}
     o = X.observe(q, c)
-    r = X.run(ctx, "c03", 1, cases=[c], ref=ctx.tables_changed(SECTIONS))
+    if "ops_hist" in c:      # a history case found by the search
+        from props import _worldcheck as W
+        r = W.run(ctx, "c05", 1, 1, cases=[c])
+    else:
+        r = X.run(ctx, "c03", 1, cases=[c], ref=ctx.tables_changed(SECTIONS))
     fs, _ = [], 0
     return {"fails": bool(r["failures"]), "impl": o, "failures": r["failures"]}
